@@ -4,12 +4,16 @@ import (
 	"bufio"
 	"bytes"
 	"context"
+	"crypto/tls"
+	"errors"
 	"fmt"
 	"io"
 	"io/ioutil"
 	"net"
 	"net/url"
+	"runtime"
 	"strings"
+	"sync"
 	"time"
 	"unsafe"
 
@@ -37,6 +41,83 @@ func init() {
 			fwr(c, c.payload(1+c.rng.Intn(300)), c.payload(c.rng.Intn(300)), []int{-1, 0, 1}[i%3], []int{-1, 1, 9, 0}[(i/3)%4])
 		}
 	})
+	// C08: control frames BETWEEN the fragments of a message through the ReadData family (judged by RX:
+	// every ping answered with the identical payload, whichever helper and side); refused close frames
+	// whose reason is long valid multi-byte text (the protocol-error reply must itself be acceptable)
+	wrap("C08", func(c *ctx) {
+		wants := []string{"data", "text", "binary"}
+		i := 0
+		for _, side := range []byte{1, 2} {
+			for n := 0; n <= 125; n++ {
+				if !c.thor && n > 20 && n%7 != 0 && n < 120 {
+					continue
+				}
+				for _, cop := range []byte{9, 10} {
+					i++
+					dop := byte(1 + i%2)
+					fs := []sframe{c.mkFrame(side, false, dop, 1+i%5), c.mkFrame(side, true, cop, n), c.mkFrame(side, false, 0, i%3)}
+					if i%4 == 0 {
+						fs = append(fs, c.mkFrame(side, true, 9, (n*3)%126))
+					}
+					fs = append(fs, c.mkFrame(side, true, 0, 2))
+					if dop == 1 {
+						for k := range fs {
+							if fs[k].op < 8 {
+								for j := range fs[k].payload {
+									fs[k].payload[j] = 'a' + fs[k].payload[j]%26
+								}
+							}
+						}
+					}
+					runRX(c, "RX", side, wants[i%3], fs, "-", chunkSpecs[i%len(chunkSpecs)], "eof")
+				}
+			}
+		}
+		fill := [][]byte{[]byte("\xe2\x82\xac"), []byte("\xf0\x9f\x98\x80"), []byte("\xc3\xa9")}
+		entries := []string{"handle", "cfh", "hcm", "hcm2"}
+		for _, code := range []int{1005, 1006, 1015, 999, 2999, 0, 1004, 5000} {
+			for n := 100; n <= 123; n++ {
+				for pre := 0; pre < 4; pre++ {
+					i++
+					if !c.thor && i%3 != 0 {
+						continue
+					}
+					r := bytes.Repeat([]byte("a"), pre)
+					f := fill[i%3]
+					for len(r)+len(f) <= n {
+						r = append(r, f...)
+					}
+					for len(r) < n {
+						r = append(r, 'z')
+					}
+					body := append([]byte{byte(code >> 8), byte(code)}, r...)
+					c08H(c, byte(1+i%2), 8, body, []string{"-", "0a0b0c0d"}[i%2], entries[i%4], []string{"-", "r7"}[i%2])
+				}
+			}
+		}
+	})
+	// C19: TLS sessions relying on the library defaults (no TLSConfig / TLSClient), each to its own host:
+	// every session must announce ITS host name whatever the other sessions do
+	replayers["C19T"] = func(c *ctx, in []string) {
+		var n int
+		fmt.Sscan(in[0], &n)
+		c19Reexec()
+		c19TLS(c, n, in[1] == "1")
+	}
+	replayers["C19P"] = func(c *ctx, in []string) {
+		var n int
+		fmt.Sscan(in[0], &n)
+		c19Reexec()
+		c19Pool(c, n)
+	}
+	wrap("C19", func(c *ctx) {
+		c19Pool(c, 4)
+		c19TLS(c, 3, false)
+		c19TLS(c, 8, true)
+		if c.thor {
+			c19TLS(c, 32, true)
+		}
+	})
 	// C13 (send side): a message split into more than 256 frames
 	wrap("C13", func(c *ctx) {
 		// the same writer reused for control frames while the message state says "compressed"
@@ -60,16 +141,38 @@ func init() {
 		var n, k int
 		fmt.Sscan(in[1], &n)
 		fmt.Sscan(in[2], &k)
-		wrf(c, parseWcfg(in[0]), n, k)
+		tail := "fail"
+		if len(in) > 3 {
+			tail = in[3]
+		}
+		wrf(c, parseWcfg(in[0]), n, k, tail)
 	}
 	wrap("C06", func(c *ctx) {
 		for _, ctor := range []string{"s5", "s125", "u200", "d0"} {
 			for _, side := range []byte{1, 2} {
 				for _, n := range []int{1, 4, 5, 6, 130, 300} {
 					for _, k := range []int{0, 1, n / 2, n} {
-						wrf(c, wcfg{ctor, side, 2, "-"}, n, k)
+						wrf(c, wcfg{ctor, side, 2, "-"}, n, k, "fail")
+						// the last bytes arrive together with the error / with io.EOF
+						wrf(c, wcfg{ctor, side, 2, "-"}, n, k, "faildata")
+						wrf(c, wcfg{ctor, side, 2, "-"}, n, k, "eofdata")
 					}
 				}
+			}
+		}
+		// caller-supplied buffers around the header-reservation thresholds (125/126 and 65535/65536 payload
+		// bytes of room, with and without the mask), filled completely
+		for _, side := range []byte{1, 2} {
+			for _, n := range []int{127, 128, 129, 131, 132, 133, 65538, 65539, 65540, 65541, 65543, 65544, 65545, 65549, 65550, 65551} {
+				if !c.thor && n > 1000 && (n < 65535+int(side)*4 || n > 65537+int(side)*4) {
+					continue // quick tier: only the three sizes around this side's threshold
+				}
+				ctor := fmt.Sprintf("u%d", n)
+				if c.thor || n < 1000 {
+					runWH(c, "WH", wcfg{ctor, side, 2, "-"}, fmt.Sprintf("w%d/1,fl", n), "-")
+				}
+				// the second write finds the buffer part-filled: it is topped up and flushed completely full
+				runWH(c, "WH", wcfg{ctor, side, 1, "-"}, fmt.Sprintf("w%d/2,w%d/3,fl", n*2/3, n*2/3), "-")
 			}
 		}
 		var ops []string
@@ -444,18 +547,18 @@ func dbd2(c *ctx, variant int) {
 }
 
 // WRF: ReadFrom a source that FAILS after k of n bytes, then Flush: what was accepted must still go out
-func wrf(c *ctx, cfg wcfg, n, k int) {
+func wrf(c *ctx, cfg wcfg, n, k int, tail string) {
 	dst := newRecWriter()
 	w, pan := newWriter(dst, cfg)
 	if pan {
 		return
 	}
 	data := patBytes(n, 3)
-	src := newChunkReader(data[:k], "r3", "fail")
+	src := newChunkReader(data[:k], "r3", tail)
 	m, err := w.ReadFrom(src)
 	buffered := w.Buffered()
 	ferr := w.Flush()
-	c.emit("WRF %s %d %d -> %d %s %d %s %s", cfg.tok(), n, k, m, werrClass(err), buffered, werrClass(ferr), hxList(dst.calls))
+	c.emit("WRF %s %d %d %s -> %d %s %d %s %s", cfg.tok(), n, k, tail, m, werrClass(err), buffered, werrClass(ferr), hxList(dst.calls))
 }
 
 func c14Params(s string) wsflate.Parameters {
@@ -493,4 +596,160 @@ func c14R(c *ctx, cfgA, offerA, cfgB, offerB string) {
 	f := wsflate.Extension{Parameters: c14Params(cfgB)}
 	rb := strings.ReplaceAll(c14Neg(&f, offerB), " ", "_")
 	c.emit("C14R %s %s %s %s -> %s %s", cfgA, strings.ReplaceAll(offerA, " ", "_"), cfgB, strings.ReplaceAll(offerB, " ", "_"), ra, rb)
+}
+
+// c19SNI dials wss://host/ with a zero Dialer over a pipe; the fake TLS server records the announced
+// server name and aborts the handshake (no certificates needed).
+func c19SNI(host string) string {
+	got := make(chan string, 1)
+	d := ws.Dialer{}
+	d.NetDial = func(ctx context.Context, network, addr string) (net.Conn, error) {
+		cl, sv := net.Pipe()
+		go func() {
+			defer sv.Close()
+			srv := tls.Server(sv, &tls.Config{GetConfigForClient: func(h *tls.ClientHelloInfo) (*tls.Config, error) {
+				got <- h.ServerName
+				return nil, fmt.Errorf("verif: abort handshake")
+			}})
+			_ = srv.Handshake()
+		}()
+		return cl, nil
+	}
+	ctx, cancel := context.WithTimeout(context.Background(), 5*time.Second)
+	defer cancel()
+	conn, _, _, err := d.Dial(ctx, "wss://"+host+"/")
+	if err == nil {
+		conn.Close()
+		return "!success"
+	}
+	select {
+	case name := <-got:
+		return name
+	case <-time.After(5 * time.Second):
+		return "!nohello"
+	}
+}
+
+func c19TLS(c *ctx, n int, concurrent bool) {
+	races0 := c19Races()
+	hosts := make([]string, n)
+	seen := make([]string, n)
+	for i := range hosts {
+		hosts[i] = fmt.Sprintf("h%d.example", i)
+	}
+	if concurrent {
+		var wg sync.WaitGroup
+		for i := range hosts {
+			wg.Add(1)
+			go func(i int) { defer wg.Done(); seen[i] = c19SNI(hosts[i]) }(i)
+		}
+		wg.Wait()
+	} else {
+		for i := range hosts {
+			seen[i] = c19SNI(hosts[i])
+		}
+	}
+	mism, first := 0, "-"
+	for i := range hosts {
+		if seen[i] != hosts[i] {
+			if mism == 0 {
+				first = hosts[i] + "=>" + seen[i]
+			}
+			mism++
+		}
+	}
+	c.emit("C19T %d %d %s -> %d %d %s", n, b2i(concurrent), b2s(raceEnabled), mism, c19Races()-races0, first)
+}
+
+// ---- C19P: a session that failed while SENDING its request, then two overlapping sessions ----
+
+type c19BrokenConn struct{ net.Conn }
+
+func (c19BrokenConn) Write(p []byte) (int, error) { return 0, errors.New("verif: broken pipe") }
+
+// c19Session: one client handshake against the library's upgrader over a pipe; returns "" when the
+// server saw exactly this session's host and path and both sides succeeded.
+func c19Session(host, path string, hdr ws.HandshakeHeader) (res string) {
+	defer func() {
+		if r := recover(); r != nil {
+			res = "panic"
+		}
+	}()
+	type seen struct {
+		uri, host string
+		err       error
+	}
+	srv := make(chan seen, 1)
+	d := ws.Dialer{Header: hdr, NetDial: func(ctx context.Context, network, addr string) (net.Conn, error) {
+		cl, sv := net.Pipe()
+		go func() {
+			defer sv.Close()
+			var sn seen
+			u := ws.Upgrader{
+				OnRequest: func(uri []byte) error { sn.uri = string(uri); return nil },
+				OnHost:    func(h []byte) error { sn.host = string(h); return nil },
+			}
+			_, sn.err = u.Upgrade(sv)
+			srv <- sn
+		}()
+		return cl, nil
+	}}
+	ctx, cancel := context.WithTimeout(context.Background(), 3*time.Second)
+	defer cancel()
+	conn, br, _, err := d.Dial(ctx, "ws://"+host+path)
+	if br != nil {
+		ws.PutReader(br)
+	}
+	if err != nil {
+		return "dialerr"
+	}
+	conn.Close()
+	select {
+	case sn := <-srv:
+		if sn.err != nil || sn.uri != path || sn.host != host {
+			return fmt.Sprintf("server-saw:%s%s:%v", sn.host, sn.uri, sn.err != nil)
+		}
+	case <-time.After(3 * time.Second):
+		return "serverhang"
+	}
+	return ""
+}
+
+func c19Pool(c *ctx, rounds int) {
+	races0 := c19Races()
+	old := runtime.GOMAXPROCS(1)
+	bad, first := 0, "-"
+	note := func(who, r string) {
+		if r != "" {
+			if bad == 0 {
+				first = who + ":" + strings.ReplaceAll(r, " ", "_")
+			}
+			bad++
+		}
+	}
+	for round := 0; round < rounds; round++ {
+		broken := ws.Dialer{NetDial: func(ctx context.Context, network, addr string) (net.Conn, error) {
+			cl, sv := net.Pipe()
+			go func() { io.Copy(ioutil.Discard, sv) }()
+			return c19BrokenConn{cl}, nil
+		}}
+		if _, _, _, err := broken.Dial(context.Background(), "ws://broken.example/"); err == nil {
+			note("broken", "success")
+		}
+		// session B runs entirely while session A is between taking and returning its pooled writer
+		resB := make(chan string, 1)
+		hdrA := ws.HandshakeHeaderFunc(func(w io.Writer) (int64, error) {
+			go func() { resB <- c19Session("b.example", "/session-B", nil) }()
+			rb := <-resB
+			resB <- rb
+			n, err := io.WriteString(w, "X-Session: A\r\n")
+			return int64(n), err
+		})
+		ra := c19Session("a.example", "/session-A", hdrA)
+		rb := <-resB
+		note("A", ra)
+		note("B", rb)
+	}
+	runtime.GOMAXPROCS(old)
+	c.emit("C19P %d %s -> %d %d %s", rounds, b2s(raceEnabled), bad, c19Races()-races0, first)
 }
